@@ -13,6 +13,91 @@ TW = "bluesky.callbacks.tiled_writer"
 HANDLERS = ["start", "stop", "descriptor", "event", "resource", "stream_resource", "stream_datum", "datum", "datum_page", "event_page"]
 
 
+def _keyset_mutations(f, container_txt):
+    """Statements that change WHICH keys `container_txt` (e.g. doc['data_keys']) has: a depth-1 item store with a
+    computed key, a pop / del of one of its items, clear / update."""
+    out = []
+    for st in A.walk_stmts(f.node.body):
+        hit = False
+        for n in A.walk_local(st) if not isinstance(st, (ast.For, ast.While, ast.If, ast.With, ast.Try)) else [st]:
+            if isinstance(n, ast.Subscript) and isinstance(n.ctx, (ast.Store, ast.Del)) and A.norm(n.value) == container_txt:
+                hit = True
+            if isinstance(n, ast.Call) and isinstance(n.func, ast.Attribute) and n.func.attr in ("pop", "clear", "update", "popitem", "setdefault") and A.norm(n.func.value) == container_txt:
+                hit = True
+        if hit:
+            out.append(st)
+    return out
+
+
+def d4_key_names_agree(ctx, repo):
+    """'keeps every internal event value': event() keeps exactly the keys recorded by descriptor() in _int_keys / _ext_keys.
+    Both handlers rename reserved keys; the recorded names and the filtered names must be the names AFTER renaming, and the
+    two renamings must be the same function of the reserved name."""
+    rule = "C35.D4-recorded-key-names-are-final"
+    d = repo.func(TW, "RunNormalizer.descriptor")
+    e = repo.func(TW, "RunNormalizer.event")
+    pol = q.quiet_policy(repo)
+    # descriptor: snapshots of the key names
+    snaps = [st for st in A.walk_stmts(d.node.body) if isinstance(st, ast.Expr) and isinstance(st.value, ast.Call) and
+             A.call_name(st.value) in ("self._int_keys.update", "self._ext_keys.update", "self._int_keys.add", "self._ext_keys.add")]
+    ok = len(snaps) >= 2
+    ctx.ob(rule, cname(d, None, "descriptor records the internal and the external key names"), ok, "" if ok else "the key names are no longer recorded", where=where(d, d.node))
+    # which container do the snapshots read?  resolve a local alias `data_keys = doc.get('data_keys', {})` / doc['data_keys']
+    cont = "doc['data_keys']"
+    aliases = {cont, "doc.get('data_keys', {})"}
+    alias_names = {t.id for st in A.walk_stmts(d.node.body) if isinstance(st, ast.Assign) and A.norm(st.value) in aliases for t in st.targets if isinstance(t, ast.Name)}
+    g = q.cfg(d, pol)
+    muts = _keyset_mutations(d, cont) + [m for a in alias_names for m in _keyset_mutations(d, a)]
+    ctx.ob(rule, cname(d, None, "key-renaming statements found"), bool(muts), "" if muts else "no statement renames reserved keys any more", where=where(d, d.node))
+    for sn in snaps:
+        reads = [n for n in ast.walk(sn) if (isinstance(n, ast.Name) and n.id in alias_names) or A.norm(n) in aliases]
+        ok = bool(reads)
+        if not ok:
+            ctx.ob(rule, cname(d, sn), False, "the recorded names do not come from the descriptor's data_keys", where=where(d, sn))
+            continue
+        start = list(g.nodes_of(sn))
+        seen = g.reachable(start)
+        late = [m for m in muts if any(n in seen for n in g.nodes_of(m)) and m is not sn]
+        ok = not late
+        ctx.ob(rule, cname(d, sn), ok,
+               "" if ok else f"`{A.short(late[0], 70)}` changes the key names after they were recorded: event() filters the renamed keys of the event against the old names and drops their values",
+               nontrivial=True, where=where(d, late[0] if late else sn))
+    # event: the filter reads doc['data'] after its renames
+    filt = [st for st in A.walk_stmts(e.node.body) if isinstance(st, ast.Assign) and any(A.norm(t) in ("event_doc['data']", "event_doc['timestamps']") for t in st.targets)]
+    ok = len(filt) == 2
+    ctx.ob(rule, cname(e, None, "event filters data and timestamps by the recorded names"), ok, "" if ok else "filter statements not found", where=where(e, e.node))
+    ge = q.cfg(e, pol)
+    for cont_e in ("doc['data']", "doc['timestamps']"):
+        em = _keyset_mutations(e, cont_e)
+        for st in filt:
+            if cont_e not in A.norm(st.value):
+                continue
+            seen = ge.reachable(list(ge.nodes_of(st)))
+            late = [m for m in em if any(n in seen for n in ge.nodes_of(m))]
+            ok = bool(em) and not late
+            ctx.ob(rule, cname(e, None, f"{cont_e} is renamed before it is filtered"), ok,
+                   "" if ok else "the event's keys are filtered before / without being renamed", nontrivial=True, where=where(e, st))
+    # the two renamings agree: same iteration source, same new-key expression
+    def renames(f, cont_txt):
+        out = []
+        for lp in A.walk_stmts(f.node.body):
+            if isinstance(lp, ast.For) and isinstance(lp.target, ast.Name):
+                for st in A.walk_stmts(lp.body):
+                    if isinstance(st, ast.Assign) and isinstance(st.targets[0], ast.Subscript) and A.norm(st.targets[0].value) == cont_txt and \
+                            isinstance(st.value, ast.Call) and A.norm(st.value.func) == f"{cont_txt}.pop" and [A.norm(a) for a in st.value.args] == [lp.target.id]:
+                        out.append((A.norm(lp.iter), A.norm(st.targets[0].slice).replace(lp.target.id, "$name")))
+        return out
+    rd, re_, rt = renames(d, "doc['data_keys']"), renames(e, "doc['data']"), renames(e, "doc['timestamps']")
+    ok = len(rd) == 1 and rd == re_ == rt
+    ctx.ob(rule, f"{TW}:RunNormalizer descriptor / event rename the same reserved names to the same new names", ok,
+           "" if ok else f"descriptor renames {rd}, event data {re_}, timestamps {rt}", nontrivial=True, where=where(e, e.node))
+    # the selection uses both recorded sets
+    sel = [st for st in A.walk_stmts(e.node.body) if isinstance(st, ast.Assign) and "self._int_keys" in A.norm(st.value)]
+    ok = len(sel) == 1 and "self._ext_keys" in A.norm(sel[0].value)
+    ctx.ob(rule, cname(e, None, "kept keys = recorded internal keys (+ filled external ones)"), ok, "" if ok else "selection changed", where=where(e, e.node))
+    ctx.expect(rule, 8)
+
+
 def run(ctx):
     repo = ctx.repo
     ctx.explanation = (
@@ -21,7 +106,8 @@ def run(ctx):
         "alias of the received document or a value nested in it / in a shallow copy of it; D2 every document RunNormalizer hands on goes "
         "through emit(), which validates against the schema, and emit is the only caller of the dispatcher; D3 _ConditionalBackup appends "
         "to its buffer before calling the primary, only ever sets the failure flag, flushes the buffer in order to every backup inside a "
-        "per-backup try/except, then clears it. Not decided: 'keeps every internal value', datum -> stream-datum index arithmetic, patch "
+        "per-backup try/except, then clears it. D4 the key names descriptor() records for event() to filter by are read after every statement that renames reserved "
+        "keys, event() renames before it filters, and both rename the same names the same way. Not decided: datum -> stream-datum index arithmetic, patch "
         "functions supplied by the user.")
     cd = CopyDepth(repo, TW, "RunNormalizer")
     n_handlers = 0
@@ -101,18 +187,24 @@ def run(ctx):
             for (g, stmt, rc, what) in cd2.findings:
                 ctx.info(f"(outside C35's subject) {g.key}:{A.head(stmt)}: {what}")
 
+    d4_key_names_agree(ctx, repo)
+
 
 CLAIM = {
     "text": "Decides by copy-depth analysis (interprocedural through self.* helpers and instance caches) that no document handler of RunNormalizer "
             "mutates the received document or a dictionary nested in it / in a shallow copy of it (the three shallow-copy defects fixed in /repo as "
             "F-8 would be reported again), that every document it emits goes through the validating emit, and that _ConditionalBackup buffers "
-            "before trying the primary, never resets its failure flag, and flushes in order to every backup in isolation. Value preservation and "
-            "datum index arithmetic are not decided.",
-    "technique": "alias / copy-depth abstract interpretation with mutation sinks; call-site ownership; statement-order rule",
+            "before trying the primary, never resets its failure flag, and flushes in order to every backup in isolation; for 'keeps every internal value' it decides the key-name "
+            "agreement only: the names descriptor() records are read after every renaming of reserved keys, event() renames before filtering, "
+            "and both rename identically. Datum index arithmetic is not decided.",
+    "technique": "alias / copy-depth abstract interpretation with mutation sinks; call-site ownership; CFG reachability (recorded names vs key-set mutations); writer/reader agreement of the two renamings",
 }
 
 T = "callbacks/tiled_writer.py"
 MUTANTS = [
+    ("event filters before renaming reserved keys", [(T, "        # Part 1. ----- Internal Data -----\n        # Emit a new Event with _internal_ data: select only keys without 'external' flag or those that are filled\n        filled = doc.pop(\"filled\", {})", "        filled = doc.get(\"filled\", {})"),
+        (T, "        event_doc[\"timestamps\"] = {k: v for k, v in doc[\"timestamps\"].items() if k in event_keys}\n        self.emit(DocumentNames.event, event_doc)", "        event_doc[\"timestamps\"] = {k: v for k, v in doc[\"timestamps\"].items() if k in event_keys}\n        for name in RESERVED_DATA_KEYS:\n            if name in doc[\"data\"].keys():\n                doc[\"data\"][f\"_{name}\"] = doc[\"data\"].pop(name)\n        self.emit(DocumentNames.event, event_doc)")], "C35.D4"),
+    ("event renames reserved keys with a different prefix", [(T, "                doc[\"data\"][f\"_{name}\"] = doc[\"data\"].pop(name)", "                doc[\"data\"][f\"__{name}\"] = doc[\"data\"].pop(name)")], "C35.D4"),
     ("resource handler shallow-copies (revert of F-8)", [(T, "    def resource(self, doc: Resource):\n        doc = copy.deepcopy(doc)", "    def resource(self, doc: Resource):\n        doc = copy.copy(doc)")], "C35.D1"),
     ("datum handler shallow-copies (revert of F-8)", [(T, "    def datum(self, doc: Datum):\n        doc = copy.deepcopy(doc)", "    def datum(self, doc: Datum):\n        doc = copy.copy(doc)")], "C35.D1"),
     ("stream_resource handler shallow-copies (revert of F-8)", [(T, "    def stream_resource(self, doc: StreamResource):\n        doc = copy.deepcopy(doc)", "    def stream_resource(self, doc: StreamResource):\n        doc = copy.copy(doc)")], "C35.D1"),
